@@ -7,9 +7,9 @@ def clipGenomeS (s e L own other : Int) (fwd : Bool) : Int := (max (0 : Int) s)
 def clipGenomeE (s e L own other : Int) (fwd : Bool) : Int := (min own e)
 def clipGeometryS (s e L own other : Int) (fwd : Bool) : Int := (max (0 : Int) s)
 def clipGeometryE (s e L own other : Int) (fwd : Bool) : Int := (min own e)
-def extendGeometryS (s e L own other : Int) (fwd : Bool) : Int := (if fwd = true then s else (max (e - L) (0 : Int)))
+def extendGeometryS (s e L own other : Int) (fwd : Bool) : Int := (if fwd = true then s else (e - (min L e)))
 def extendGeometryE (s e L own other : Int) (fwd : Bool) : Int := (if fwd = true then (min (s + L) own) else e)
-def extendGenomeS (s e L own other : Int) (fwd : Bool) : Int := (if fwd = true then s else (max (e - L) (0 : Int)))
+def extendGenomeS (s e L own other : Int) (fwd : Bool) : Int := (if fwd = true then s else (e - (min L e)))
 def extendGenomeE (s e L own other : Int) (fwd : Bool) : Int := (if fwd = true then (min (s + L) own) else e)
 def locStart (s e : Int) (fwd : Bool) : Int := (if fwd = true then s else (e - (1 : Int)))
 def locStop (s e : Int) (fwd : Bool) : Int := (if fwd = false then s else (e - (1 : Int)))
